@@ -1952,6 +1952,7 @@ static void upipe_h264f_output_au(struct upipe *upipe, struct uref *uref,
     }
 
     if (ubase_check(uref_pic_get_key(uref)) &&
+        upipe_h264f->active_sps != -1 && upipe_h264f->active_pps != -1 &&
         upipe_h264f_find_annexb_nal(upipe, uref, H264NAL_TYPE_SPS) == -1) {
         upipe_verbose(upipe, "prepending SPS and PPS on keyframe");
 
